@@ -31,7 +31,7 @@ import re
 from fractions import Fraction
 
 from .poly import Poly, Rat, _r
-from .pyfront import dotted, call_name, src
+from .pyfront import dotted, call_name, src, walk_no_nested
 from .pysym import PySym, Unsupported, PI
 
 
@@ -327,6 +327,7 @@ class TenSym(PySym):
         self.assume = parent.assume if parent is not None else None     # callable(source text of an undecidable test) -> True / False / None
         self.choices = parent.choices if parent is not None else None   # [bool, ...] answers for tests that depend on symbolic values (see run_paths)
         self.taken = parent.taken if parent is not None else []         # [(source of the test, answer)] in the order met
+        self.classes = parent.classes if parent is not None else {}     # name -> ast.ClassDef: instantiated from their source (instantiate)
 
     # ------------------------------------------------------------------ helpers
     def lift(self, v):
@@ -622,10 +623,14 @@ class TenSym(PySym):
                 gt = base.__dict__.get("_getters")
                 if gt and n.attr in gt:
                     return gt[n.attr](base)         # a property of the modelled class
+                pr_ = base.__dict__.get("_props")
+                if pr_ and n.attr in pr_ and n.attr not in base.__dict__:
+                    sub = TenSym(self.globals_env(), self.positive, self.funcs, parent=self)
+                    return sub.run_fn(pr_[n.attr], self=base)        # a @property of the class, evaluated from its source
                 if not hasattr(base, n.attr):
                     if getattr(base, "_lenient", False) and n.attr.startswith("_"):
                         return None         # a private field the model does not know: as on a fresh object
-                    raise Unsupported("model object has no attribute %s" % n.attr)
+                    raise Raised("model object has no attribute %s" % n.attr, "AttributeError(%r)" % n.attr)
                 return getattr(base, n.attr)
             if isinstance(base, Ten):
                 if n.attr == "T":
@@ -760,6 +765,14 @@ class TenSym(PySym):
         if (isinstance(a, Ten) and isinstance(b, str)) or (isinstance(a, str) and isinstance(b, Ten)):
             if isinstance(op, (ast.Eq, ast.NotEq)):
                 return isinstance(op, ast.NotEq)
+        if isinstance(op, (ast.In, ast.NotIn)) and isinstance(b, Ten):
+            av = self.lift(self.pyval(a))
+            ac = av.const_value() if isinstance(av, Rat) else None
+            bc = [x.const_value() for x in b.data]
+            if ac is None or any(c is None for c in bc):
+                raise Unsupported("membership of / in symbolic values: %s" % (src(n) if n is not None else "?"))
+            r = any(c == ac for c in bc)
+            return r if isinstance(op, ast.In) else not r
         if isinstance(a, Ten) or isinstance(b, Ten):
             ta, tb = self.to_ten(self.lift(a)), self.to_ten(self.lift(b))
             sh = bshape(ta.shape, tb.shape)
@@ -1029,6 +1042,44 @@ class TenSym(PySym):
             if isinstance(recv, str) and m in ("lower", "upper"):
                 return getattr(recv, m)()
             raise Unsupported("method call %s" % src(n)[:50])
+        # ---- classes given by their source
+        if cn in self.classes and cn not in self.models:
+            return self.instantiate(cn, [self.ex(a) for a in n.args], {k.arg: self.ex(k.value) for k in n.keywords if k.arg})
+        if cn in ("getattr", "hasattr") and len(n.args) >= 2:
+            o_ = self.ex(n.args[0])
+            nm_ = self.pyval(self.ex(n.args[1]))
+            if isinstance(o_, Obj) and isinstance(nm_, str):
+                probe = ast.Attribute(value=ast.Constant(value=None), attr=nm_, ctx=ast.Load())
+                saved = self.env.get("__probe__")
+                self.env["__probe__"] = o_
+                probe.value = ast.Name(id="__probe__", ctx=ast.Load())
+                try:
+                    v_ = self.ex(probe)
+                    found = True
+                except Raised as e:
+                    if not (e.exc or "").startswith("AttributeError"):
+                        raise
+                    found, v_ = False, None
+                finally:
+                    if saved is None:
+                        self.env.pop("__probe__", None)
+                    else:
+                        self.env["__probe__"] = saved
+                if cn == "hasattr":
+                    return found
+                if found:
+                    return v_
+                if len(n.args) >= 3:
+                    return self.ex(n.args[2])
+                raise Raised("the analysed path raises AttributeError", "AttributeError(%r)" % nm_)
+            if cn == "hasattr" and isinstance(nm_, str):
+                if isinstance(o_, (list, tuple, dict, frozenset)):
+                    return nm_ in ("__iter__", "__len__", "__getitem__", "__contains__")
+                if isinstance(o_, Ten):
+                    return nm_ in ("shape", "ndim", "dtype", "T", "__iter__", "__len__", "__getitem__", "copy", "astype")
+                return False
+        if cn == "iter" and len(n.args) == 1:
+            return list(self.iterate(self.ex(n.args[0])))
         # ---- local functions and lambdas held in variables
         if isinstance(n.func, ast.Name) and n.func.id in self.env and isinstance(self.env[n.func.id], tuple) and self.env[n.func.id][:1] in (("<closure>",), ("<lambda>",)):
             f = self.env[n.func.id]
@@ -1388,6 +1439,9 @@ class TenSym(PySym):
             hi = self.getitem(t, tuple([slice(None)] * axis + [slice(1, L_)]))
             lo = self.getitem(t, tuple([slice(None)] * axis + [slice(0, L_ - 1)]))
             return self.elementwise(lambda x, y: x - y, hi, lo)
+        if cn in ("np.array_equal",):
+            a_, b_ = self.to_ten(A(0)), self.to_ten(A(1))
+            return a_.shape == b_.shape and self.equal(a_, b_)
         if cn in ("np.count_nonzero",):
             t = self.to_ten(A(0))
             nz = Ten(t.shape, [Rat(Poly.const(int(self.concrete(x) != 0))) for x in t.data])
@@ -1485,6 +1539,14 @@ class TenSym(PySym):
             return sorted(v) if isinstance(v, frozenset) else list(v)
         if isinstance(v, dict):
             return list(v.keys())
+        if isinstance(v, Obj):
+            it_ = v.__dict__.get("_iter")
+            if callable(it_):
+                return list(it_())
+            cm = v.__dict__.get("_methods") or {}
+            if "__iter__" in cm:
+                sub = TenSym(self.globals_env(), self.positive, self.funcs, parent=self)
+                return list(self.iterate(sub.run_fn(cm["__iter__"], self=v)))
         raise Unsupported("iteration over %s" % type(v).__name__)
 
     def inline(self, fn, call):
@@ -1529,8 +1591,54 @@ class TenSym(PySym):
         missing = [x for x in names if x not in self.env]
         if missing:
             raise Unsupported("%s needs %s" % (fn.name, missing))
+        if any(isinstance(x, (ast.Yield, ast.YieldFrom)) for x in walk_no_nested(fn)):
+            self.yielded = []           # a generator function: what it yields, collected in order
+            self.run(fn.body)
+            return list(self.yielded)
         self.run(fn.body)
         return self.returned
+
+    def instantiate(self, cname, args, kwargs):
+        """an object of a class given by its source: its methods and properties are evaluated from the class body, __init__ is run"""
+        cd = self.classes[cname]
+        methods, props, psetters, consts, isa = {}, {}, {}, {}, [cname]
+
+        def collect(c):
+            for b in c.bases:
+                bn = dotted(b)
+                if bn in self.classes and bn not in isa:
+                    isa.append(bn)
+                    collect(self.classes[bn])
+            for st in c.body:
+                if isinstance(st, ast.FunctionDef):
+                    decs = [src(d) for d in st.decorator_list]
+                    if "property" in decs:
+                        props[st.name] = st
+                    elif any(d.endswith(".setter") for d in decs):
+                        psetters[st.name] = st
+                    elif any(d in ("staticmethod", "classmethod") for d in decs):
+                        methods[st.name] = st
+                    else:
+                        methods[st.name] = st
+                elif isinstance(st, ast.Assign) and len(st.targets) == 1 and isinstance(st.targets[0], ast.Name):
+                    consts[st.targets[0].id] = st.value
+        collect(cd)
+        o = Obj(_cls=cname, _isa=tuple(isa), _methods=methods, _props=props, _psetters=psetters, tag="%s#%d" % (cname, len(self.calls) + id(cd) % 7))
+        for k, v in consts.items():
+            try:
+                setattr(o, k, self.ex(v))
+            except Unsupported:
+                pass
+        if "__init__" in methods:
+            f_ = methods["__init__"]
+            sub = TenSym(self.globals_env(), self.positive, self.funcs, parent=self)
+            pn = [a_.arg for a_ in f_.args.args][1:]
+            given = {"self": o}
+            for k, v in zip(pn, args):
+                given[k] = v
+            given.update(kwargs)
+            sub.run_fn(f_, **given)
+        return o
 
     def globals_env(self):
         return {k: v for k, v in self.env.items() if k.startswith("__g_")}
@@ -1581,8 +1689,13 @@ class TenSym(PySym):
             if not isinstance(base, Obj):
                 raise Unsupported("attribute store on %s" % type(base).__name__)
             st_ = base.__dict__.get("_setters")
+            ps_ = base.__dict__.get("_psetters")
             if st_ and target.attr in st_:
                 st_[target.attr](base, v)           # a property setter of the modelled class
+            elif ps_ and target.attr in ps_:
+                f_ = ps_[target.attr]
+                sub = TenSym(self.globals_env(), self.positive, self.funcs, parent=self)
+                sub.run_fn(f_, **{"self": base, f_.args.args[1].arg: v})
             else:
                 setattr(base, target.attr, v)
         else:
@@ -1637,6 +1750,13 @@ class TenSym(PySym):
         elif isinstance(s, ast.Return):
             self.returned = self.ex(s.value) if s.value is not None else None
             raise TenSym._Return()
+        elif isinstance(s, ast.Expr) and isinstance(s.value, (ast.Yield, ast.YieldFrom)):
+            if not hasattr(self, "yielded"):
+                raise Unsupported("yield outside a generator function")
+            if isinstance(s.value, ast.Yield):
+                self.yielded.append(self.ex(s.value.value) if s.value.value is not None else None)
+            else:
+                self.yielded.extend(self.iterate(self.ex(s.value.value)))
         elif isinstance(s, ast.Expr):
             if isinstance(s.value, ast.Constant):
                 return
@@ -1683,6 +1803,15 @@ class TenSym(PySym):
             if isinstance(s.value, ast.Call) and (call_name(s.value) or "") in self.models:
                 self.ex(s.value)        # a summarised callee called for its effect (a mutating kernel)
                 return
+            if isinstance(s.value, ast.Call) and isinstance(s.value.func, ast.Attribute):
+                # a method of a model object called for its effect
+                try:
+                    recv_ = self.ex(s.value.func.value)
+                except Unsupported:
+                    recv_ = None
+                if isinstance(recv_, Obj) and (s.value.func.attr in (recv_.__dict__.get("_methods") or {}) or callable(getattr(recv_, s.value.func.attr, None))):
+                    self.ex(s.value)
+                    return
             raise Unsupported("expression statement %s" % src(s)[:40])
         elif isinstance(s, ast.If):
             try:
@@ -1722,6 +1851,27 @@ class TenSym(PySym):
                     break
             if not broke:
                 self.block(s.orelse)
+        elif isinstance(s, ast.Try):
+            try:
+                self.block(s.body)
+            except Raised as e:
+                exc_name = (e.exc or "").split("(")[0].strip()
+                for h in s.handlers:
+                    names_ = []
+                    if h.type is not None:
+                        names_ = [dotted(x) or "" for x in (h.type.elts if isinstance(h.type, ast.Tuple) else [h.type])]
+                    if h.type is None or exc_name in names_ or "Exception" in names_ or "BaseException" in names_ or \
+                            (exc_name in ("KeyError", "IndexError") and "LookupError" in names_):
+                        if h.name:
+                            self.env[h.name] = Obj(tag="exception", args=(e.exc,))
+                        self.block(h.body)
+                        break
+                else:
+                    self.block(s.finalbody)
+                    raise
+            else:
+                self.block(s.orelse)
+            self.block(s.finalbody)
         elif isinstance(s, ast.While):
             n_it = 0
             broke = False
